@@ -162,6 +162,8 @@ func commitErrClass(err error) string {
 		return "blockid"
 	case strings.Contains(s, "wrong signature"):
 		return "sig"
+	case strings.Contains(s, "wrong validator address"):
+		return "addr"
 	case strings.Contains(s, "Commit cannot be for nil block"), strings.Contains(s, "no signatures in commit"), strings.Contains(s, "wrong CommitSig"):
 		return "basic"
 	}
@@ -635,6 +637,12 @@ func doVerify(o *out.Out, r *gen.Rand, vset *types.ValidatorSet, chain string, w
 			}
 			sum.Add(sum, big.NewInt(vset.Validators[i].VotingPower))
 		}
+		for i, cs := range c.Signatures {
+			if cs.BlockIDFlag != types.BlockIDFlagAbsent && i < vset.Size() && !cs.ValidatorAddress.Equal(vset.Validators[i].Address) {
+				o.Fail(step, "commit-address-forged", fmt.Sprintf("VerifyCommit accepted a commit whose slot %d names address #%d instead of the validator of that position (the block-time median weighs the slot by this address)", i, addrID[cs.ValidatorAddress]))
+				break
+			}
+		}
 		if !ok || new(big.Int).Mul(sum, big.NewInt(3)).Cmp(new(big.Int).Mul(total, big.NewInt(2))) <= 0 {
 			o.Fail(step, "verifycommit-unsound", fmt.Sprintf("VerifyCommit accepted a commit whose valid for-block signers hold %s of %s", sum, total))
 		}
@@ -645,7 +653,7 @@ func mutateCommit(r *gen.Rand, c *types.Commit, maj types.BlockID, height uint64
 	mc := c.Copy()
 	mc.Signatures = append([]types.CommitSig{}, c.Signatures...)
 	want, h := maj, height
-	switch r.Intn(11) {
+	switch r.Intn(13) {
 	case 0: // drop one signature (absent)
 		mc.Signatures[r.Intn(len(mc.Signatures))] = types.NewCommitSigAbsent()
 	case 1: // drop until below quorum: all absent except one
@@ -689,6 +697,20 @@ func mutateCommit(r *gen.Rand, c *types.Commit, maj types.BlockID, height uint64
 		mc.Signatures[i] = cs
 	case 9: // round changed
 		mc.Round = c.Round + 1
+	case 11: // forged ValidatorAddress only (signature untouched): another member's address
+		i := r.Intn(len(mc.Signatures))
+		cs := mc.Signatures[i]
+		cs.ValidatorAddress = vset.Validators[(i+1+r.Intn(len(mc.Signatures)))%len(mc.Signatures)].Address
+		mc.Signatures[i] = cs
+	case 12: // forged ValidatorAddress in every slot but one (rotate the addresses)
+		keep := r.Intn(len(mc.Signatures))
+		for i := range mc.Signatures {
+			if i != keep && mc.Signatures[i].BlockIDFlag != types.BlockIDFlagAbsent {
+				cs := mc.Signatures[i]
+				cs.ValidatorAddress = vset.Validators[(i+1)%len(mc.Signatures)].Address
+				mc.Signatures[i] = cs
+			}
+		}
 	case 10: // a prevote-typed signature in place of a precommit, or nil-vote signature flagged as commit
 		i := r.Intn(len(mc.Signatures))
 		cs := mc.Signatures[i]
